@@ -218,7 +218,8 @@ def observe_project(signac, path):
             base = os.path.basename(rel)
             if base.endswith("~") or base.startswith("._"):
                 o["leftovers"].append(name + "/" + rel)
-        entry = {"sp": tagged(sp) if sp is not None else None, "doc": tagged(doc or {}), "files": files}
+        entry = {"sp": tagged(sp) if sp is not None else None, "doc": tagged(doc or {}), "files": files,
+                 "raw": {"sp": sp, "doc": doc or {}, "files": files}}
         is_id = len(name) == 32 and all(c in "0123456789abcdef" for c in name)
         if is_id:
             o["jobs"][name] = entry
@@ -491,7 +492,8 @@ class PlainModel:
         raise ValueError(op)
 
     def expected_jobs(self, p):
-        return {jid: {"sp": tagged(j["sp"]), "doc": tagged(j["doc"]), "files": dict(j["files"])}
+        return {jid: {"sp": tagged(j["sp"]), "doc": tagged(j["doc"]), "files": dict(j["files"]),
+                      "raw": {"sp": j["sp"], "doc": j["doc"], "files": dict(j["files"])}}
                 for jid, j in self.projects[p].items()}
 
 
@@ -502,7 +504,7 @@ SP_KEYS = ["a", "b", "c", "d"]
 SP_VALS = [0, 1, "x", 1.0, True, None, [1, 2], {"n": 0}, {"n": 1}]
 SP_VALS_PLAIN = [0, 1, "x"]
 DOC_KEYS = ["k", "m"]
-DOC_VALS = [0, "s", [1], {"q": 1}, 2.5, None]
+DOC_VALS = [0, "s", [1], {"q": 1}, 2.5]  # no None: the dependency ignores None over a nested collection on load (C05, F-5d)
 FILES = ["f.txt", "g.dat", "sub/h.txt"]
 FOREIGN = ["tmp", "x" * 31, "0" * 33, "ABCDEF0123456789ABCDEF0123456789"]
 
@@ -562,7 +564,7 @@ def gen_ops(rng, length, nproj=2, rich=False, weights=None, allow_plant=False):
             elif r < 0.85:
                 ops.append(["dclear", h])
             else:
-                ops.append(["dreset", h, {rng.choice(DOC_KEYS): copy.deepcopy(rng.choice(DOC_VALS[:5]))}])
+                ops.append(["dreset", h, {rng.choice(DOC_KEYS): copy.deepcopy(rng.choice(DOC_VALS))}])
         elif k == "put":
             ops.append(["put", rng.choice(handles), rng.choice(FILES), rng.choice(["", "A", "BB"])])
         elif k in ("clear", "reset", "remove"):
@@ -623,6 +625,53 @@ KNOWN_TEXT = {
 MUTATING_OTHERS = ("remove", "spset", "spdel", "spnest", "spassign", "update", "move", "clear", "reset")
 
 
+def _noraw(jobs):
+    return {j: {k: v for k, v in e.items() if k != "raw"} for j, e in jobs.items()}
+
+
+def model_op(op, cached=None):
+    """Serialise one op for lean/Drv/Ws.lean."""
+    from harness.core import enc_val, hx
+
+    k = op[0]
+    S = lambda x: "S" + hx(x)  # noqa: E731
+    if k == "open":
+        return "open %s %d %s" % (op[1], op[2], enc_val(op[3]))
+    if k == "openid":
+        return "openid %s %d %s %s" % (op[1], op[2], S(op[3]), "-" if cached is None else enc_val(cached))
+    if k in ("init", "dclear", "clear", "reset", "remove", "drop"):
+        return "%s %s" % (k, op[1])
+    if k == "dset":
+        return "dset %s %s %s" % (op[1], S(op[2]), enc_val(op[3]))
+    if k == "ddel":
+        return "ddel %s %s" % (op[1], S(op[2]))
+    if k == "dreset":
+        return "dreset %s %s" % (op[1], enc_val(op[2]))
+    if k == "put":
+        return "put %s %s %s" % (op[1], S(op[2]), S(op[3]))
+    if k == "spset":
+        return "spset %s %s %s" % (op[1], S(op[2]), enc_val(op[3]))
+    if k == "spdel":
+        return "spdel %s %s" % (op[1], S(op[2]))
+    if k == "spnest":
+        return "spnest %s %s %s %s" % (op[1], S(op[2]), S(op[3]), enc_val(op[4]))
+    if k == "spassign":
+        return "spassign %s %s" % (op[1], enc_val(op[2]))
+    if k == "update":
+        return "update %s %s %s" % (op[1], "T" if op[3] else "F", enc_val(op[2]))
+    if k == "move":
+        return "move %s %d" % (op[1], op[2])
+    if k == "clone":
+        return "clone %s %d %s" % (op[1], op[2], op[3])
+    if k in ("ucache", "rmcache", "session"):
+        return "%s %d" % (k, op[1])
+    if k in ("copy", "deepcopy", "pickle", "pickleproc"):
+        return "%s %s %s" % ("pickle" if k == "pickleproc" else k, op[1], op[2])
+    if k == "plant":
+        return "plant %d %s" % (op[1], S(op[2]))
+    raise ValueError(op)
+
+
 def _valid(op, pm):
     """Is the op applicable (its handle operands are defined)?"""
     k = op[0]
@@ -668,7 +717,7 @@ def lockstep(ops, ctx, nproj=2, check_handles=True, stop_at_first=True):
             obs = rw.observe()
             rec = {"op": op, "real": real}
             is_stale = pre is not None and op[1] in stale
-            if is_stale and not real.startswith("ok") and [o["jobs"] for o in obs] == [o["jobs"] for o in prev_obs]:
+            if is_stale and not real.startswith("ok") and [_noraw(o["jobs"]) for o in obs] == [_noraw(o["jobs"]) for o in prev_obs]:
                 # a stale handle may refuse to act; nothing changed on disk => no-op of the reference
                 rec["model"] = "stale-refused"
                 records.append(rec)
@@ -690,6 +739,7 @@ def lockstep(ops, ctx, nproj=2, check_handles=True, stop_at_first=True):
             # reference result
             pm_before = copy.deepcopy(pm.projects)
             model = pm.apply(op)
+            m_first = model
             if k == "openid" and real.startswith("ok") and model == "KeyError":
                 # documented: the session cache may still know the state point of a removed job
                 j = rw.h[op[1]]
@@ -703,6 +753,7 @@ def lockstep(ops, ctx, nproj=2, check_handles=True, stop_at_first=True):
                 if jid not in pm_before[hd["p"]] and jid in pm_before[op[2]]:
                     model = real  # both preconditions fail; either error is fine
             rec["model"] = model
+            m0_before_fix = m_first
             for kf in pm.known:
                 failures.append("KNOWN[%s] step %d %s: %s" % (kf, i, json.dumps(op), KNOWN_TEXT[kf]))
             r0, m0 = real.split(":")[0], model.split(":")[0]
@@ -743,8 +794,8 @@ def lockstep(ops, ctx, nproj=2, check_handles=True, stop_at_first=True):
                 stale.add(op[2])  # a copy of a stale handle is stale too
             # compare the workspace seen by a fresh session / on disk with the reference
             for p in range(nproj):
-                exp = pm.expected_jobs(p)
-                got = obs[p]["jobs"]
+                exp = _noraw(pm.expected_jobs(p))
+                got = _noraw(obs[p]["jobs"])
                 if got != exp:
                     failures.append("step %d %s: project %d holds %s, reference model says %s" % (
                         i, json.dumps(op), p, json.dumps(got, sort_keys=True)[:400], json.dumps(exp, sort_keys=True)[:400]))
@@ -781,7 +832,20 @@ def lockstep(ops, ctx, nproj=2, check_handles=True, stop_at_first=True):
                             i, json.dumps(op), name, tagged(v["cached"]), want["sp"]))
                     elif not v["path_ok"]:
                         failures.append("step %d %s: handle %s path does not follow its id" % (i, json.dumps(op), name))
-            rec["obs"] = [{"jobs": o["jobs"], "foreign": o["foreign"]} for o in obs]
+            rec["obs"] = [{"jobs": _noraw(o["jobs"]), "foreign": o["foreign"]} for o in obs]
+            # ---- line for the Lean model and the token the real run must match ----
+            cached = None
+            if k == "openid" and real.startswith("ok") and m0_before_fix == "KeyError":
+                cached = plain(rw.h[op[1]].statepoint())
+            names = sorted(n for n in pm.h if n not in stale and n not in tainted and n in rw.h)
+            rec["mop"] = model_op(op, cached) + " @" + ",".join(names)
+            views = rw.handle_views() if not check_handles else views
+            hv = {n: {"p": views[n].get("proj"), "id": views[n].get("id")} for n in names if n in views}
+            rres = real.split(":")[0]
+            if k == "openid" and real.startswith("ok:"):
+                rres = "ok=" + real[3:]
+            rec["itok"] = ":".join([rres] + [ref_id({j: e["raw"] for j, e in obs[p]["jobs"].items()}) for p in range(2)]
+                                   + [ref_id(hv)])
             records.append(rec)
             prev_obs = obs
             if stop_at_first and any(not f.startswith("KNOWN[") for f in failures):
